@@ -67,6 +67,23 @@ theorem scope_lookup_none_iff (db : DB) (s t : Nat) :
 theorem scope_visible_iff_enclosing (db : DB) (hwf : db.WFScopes) (s a : Nat) :
     a ∈ db.anc s ↔ Anc db a s := anc_spec db hwf s a
 
+/-- **a registration in a blueprint that does not enclose the consumer is never used**: siblings,
+    children and cousins are invisible (well-formed scope tree). -/
+theorem scope_not_enclosing_invisible (db : DB) (hwf : db.WFScopes) {s t c : Nat}
+    (h : db.lookup s t = some c) : Anc db (db.comp c).scope s :=
+  (anc_spec db hwf s _).mp (lookup_some h).2.2.2
+
+/-- … so a type whose constructors are all registered against blueprints that do not enclose `s`
+    (e.g. only against a sibling) has no constructor in `s`. -/
+theorem scope_only_elsewhere_is_missing (db : DB) (hwf : db.WFScopes) {s t : Nat}
+    (h : ∀ j, j < db.n → (db.comp j).kind = .ctor → (db.comp j).out = t → ¬ Anc db (db.comp j).scope s) :
+    db.lookup s t = none := by
+  cases hl : db.lookup s t with
+  | none => rfl
+  | some c =>
+    have := lookup_some hl
+    exact absurd (scope_not_enclosing_invisible db hwf hl) (h c this.1 this.2.1 this.2.2.1)
+
 /-! ## Reachability: "at any depth of the dependency graph" -/
 
 /-- **the worklist of `detect_missing_constructors` reaches every component** that a handler, a
@@ -235,6 +252,24 @@ theorem singletonDeps_complete (db : DB) {s i r : Nat} (hs : s < db.n)
   refine List.mem_flatMap.mpr ⟨i, closure_complete db.transDeps db.n [s] (by simp) hs hchain, ?_⟩
   refine List.mem_map.mpr ⟨r, ?_, rfl⟩
   simp [DB.requestDeps, List.mem_filter, hr, hrl]
+
+/-- and only then: every report names a singleton constructor and a request-scoped constructor it
+    reaches through transient constructors only. -/
+theorem singletonDeps_sound (db : DB) {s r : Nat} (h : ⟨.singletonDep, s, r⟩ ∈ db.singletonDeps) :
+    s < db.n ∧ (db.comp s).life = .singleton ∧ (db.comp s).kind = .ctor ∧
+    ∃ i, db.ThroughTransients s i ∧ r ∈ db.deps i ∧ (db.comp r).life = .request := by
+  unfold DB.singletonDeps at h
+  obtain ⟨s', hs', h1⟩ := List.mem_flatMap.mp h
+  obtain ⟨i, hi, h2⟩ := List.mem_flatMap.mp h1
+  obtain ⟨r', hr', he⟩ := List.mem_map.mp h2
+  simp only [Diag.mk.injEq, true_and] at he
+  obtain ⟨rfl, rfl⟩ := he
+  have hs := mem_singletons.mp hs'
+  obtain ⟨_, r0, hr0, hreach⟩ := closure_sound db.transDeps db.n [s'] hi
+  simp at hr0
+  subst hr0
+  simp only [DB.requestDeps, List.mem_filter, decide_eq_true_eq] at hr'
+  exact ⟨hs.1, hs.2.1, hs.2.2, i, hreach, hr'.1, hr'.2⟩
 
 /-- the check as it was before the fix reports direct dependencies … -/
 theorem singletonDepsDirect_direct (db : DB) {s r : Nat} (hs : s < db.n)
